@@ -136,7 +136,10 @@ var H = {
   has: function (a, op) { return op.k in a; },
   freeze: function (a) { Object.freeze(a); }, seal: function (a) { Object.seal(a); }, prevent: function (a) { Object.preventExtensions(a); },
   proto: function (a, op, P) {
-    if (op.f === 99) { delete P[op.k]; return; }
+    // always delete first: a redefinition that converts the kind would leave stale valueProperty fields on the
+    // prototype object itself (findings N1-N3 on an ordinary object: C04's territory)
+    delete P[op.k];
+    if (op.f === 99) return;
     var d = { enumerable: !!(op.f & 2), configurable: true };
     if (op.f < 8) { d.value = op.x === 0 ? undefined : op.x; d.writable = !!(op.f & 4); }
     else { d.get = op.x === 0 ? undefined : G[op.x - 1]; d.set = op.y === 0 ? undefined : S[op.y - 1]; }
@@ -185,15 +188,36 @@ function simple(a, P) {
 }
 function toSparse(a) {
   var l = a.length, ld = Object.getOwnPropertyDescriptor(a, 'length');
-  if (!Object.isExtensible(a) || !ld.writable || l > 2000000000) return false;
-  a[l + 5000] = 0; delete a[l + 5000]; a.length = l; return true;
+  if (!Object.isExtensible(a) || !ld.writable || l > 2000000000) return 0;
+  a[l + 5000] = 7; var ok = a[l + 5000] === 7; delete a[l + 5000]; a.length = l; return ok ? 1 : -1;
 }
+// toDense: >= 1024 items make the sparse storage convert (array_sparse.go:317).  Mode 2: the fillers go into free
+// indices BELOW the last real element m (1300 <= m < 8000), so that the last real element is the last item of the
+// conversion; mode 1: fillers above the length, truncated afterwards.  Every filler is read back before it is
+// removed: a lost item (real -> dump, filler -> read-back) is observable.  Returns 0 = not applicable, 1/2 = mode,
+// -1 = a filler did not read back.
 function toDense(a) {
   var l = a.length, ld = Object.getOwnPropertyDescriptor(a, 'length');
-  if (!Object.isExtensible(a) || !ld.writable || l > 6000) return false;
+  if (!Object.isExtensible(a) || l > 6000) return 0;
+  var keys = Object.getOwnPropertyNames(a), m = -1;
+  for (var i = 0; i < keys.length; i++) { var n = Number(keys[i]); if (String(n) === keys[i] && n < 4294967295 && n > m) m = n; }
+  var ok = true, i, c;
+  if (m >= 1300 && m < 8000) {
+    var free = new Float64Array(1100), nf = 0;
+    for (i = 32; i < m && nf < 1100; i++) if (!hop.call(a, i)) free[nf++] = i;
+    if (nf === 1100) {
+      for (c = 0; c < nf; c++) a[free[c]] = c + 1;
+      for (c = 0; c < nf; c++) if (a[free[c]] !== c + 1) ok = false;
+      for (c = 0; c < nf; c++) delete a[free[c]];
+      return ok ? 2 : -1;
+    }
+  }
+  if (!ld.writable) return 0;
   var b = Math.max(l, 32);
-  for (var i = 0; i < 1100; i++) a[b + i] = 0;
-  a.length = l; return true;
+  for (i = 0; i < 1100; i++) a[b + i] = i + 1;
+  for (i = 0; i < 1100; i++) if (a[b + i] !== i + 1) ok = false;
+  a.length = l;
+  return ok ? 1 : -1;
 }
 `
 
@@ -570,17 +594,20 @@ func (vr *variant) exec(op Op, kind int) (resT, opT, dumpT string) {
 	return
 }
 
-func (vr *variant) toggle() string {
+// toggle switches the twin's storage; mode: 0 nothing happened, 1 fillers above (objCount keeps a surplus of
+// 1100 after sparse->dense), 2 fillers below the last real element, -1 a filler was lost
+func (vr *variant) toggle() (string, int64) {
 	kind := goja.VerifArrayKind(vr.a)
 	name := "toSparse"
 	if kind == "sparse" {
 		name = "toDense"
 	}
 	f, _ := goja.AssertFunction(vr.rt.Get(name))
-	if _, err := f(goja.Undefined(), vr.a); err != nil {
+	v, err := f(goja.Undefined(), vr.a)
+	if err != nil {
 		panic(fmt.Sprintf("twin forcing failed: %v", err))
 	}
-	return kind + "->" + goja.VerifArrayKind(vr.a)
+	return kind + "->" + goja.VerifArrayKind(vr.a), v.ToInteger()
 }
 
 const failTerm = "(mkCase true 0 [] [OPop] [] [] [])%N"
@@ -641,13 +668,23 @@ func runCase(c Case) vh.Record {
 			op = Op{O: "sort", Ck: 2}
 		}
 		if twin != nil && twinAt[i] {
-			tr := twin.toggle()
+			tr, mode := twin.toggle()
 			tags["twin:"+tr] = true
-			if tr == "dense->sparse" || tr == "sparse->dense" {
+			if mode == 2 {
+				tags["twin:last-real-element-is-last-item"] = true
+			}
+			if mode != 0 {
 				nontrivial = true
 				// the toggle is an op of the twin's history: its observation shows that switching is invisible
 				rt, _, dt := twin.exec(Op{O: "noop"}, 0)
-				opsT = append(opsT, "OToggle "+vh.CoqBool(tr == "dense->sparse"))
+				if mode < 0 {
+					rt = "RErr 94" // an element written by the forcing did not read back
+				}
+				drift := 0
+				if mode == 1 && tr == "sparse->dense" {
+					drift = 1100
+				}
+				opsT = append(opsT, fmt.Sprintf("OToggle %s %d", vh.CoqBool(strings.HasPrefix(tr, "dense->")), drift))
 				obsT = append(obsT, fmt.Sprintf("Ob (%s) %s", rt, dt))
 			}
 		}
